@@ -43,6 +43,10 @@ def v1_class(raw):
     k = raw.find(b"\r\n")
     line = raw[:k] if k >= 0 else raw
     toks = line.split(b" ")
+    if k >= 0 and k + 2 > 107:
+        return "v1-longer-than-107"
+    if line.startswith(b"PROXY UNKNOWN"):
+        return "v1-unknown"
     if len(line) > 10 and line[10:11] != b" ":
         return "v1-separator"
     if len(toks) > 6:
@@ -98,7 +102,21 @@ def run(ctx):
             info.get("failed_at"), PROP_FILE, " ".join(info["log"].split())[-500:]))
     if core_broken:
         ob_failed.append("model/proof files do not compile: %s\n%s" % (core_broken, log[-1500:]))
-    ctx.log("theorems: %d/%d discharged" % (len(info["discharged"]), len(info["theorems"])))
+    import re as _re
+    ob_src = common.strip_coq_comments(open(os.path.join(common.VERIF, "coq", GROUP, "Obligations.v")).read())
+    ob_names = _re.findall(r"\bLemma\s+(ob_[A-Za-z0-9_']+)", ob_src)
+    ob_ok = ob_names if "Obligations.v" not in failed and ok else []
+    if "Obligations.v" in failed:
+        m = _re.search(r'File "\./Obligations\.v", line (\d+)', log)
+        bad_ob = None
+        if m:
+            for i, l in enumerate(open(os.path.join(common.VERIF, "coq", GROUP, "Obligations.v")).read().splitlines()[:int(m.group(1))], 1):
+                mm = _re.match(r"\s*Lemma\s+(ob_[A-Za-z0-9_']+)", l)
+                if mm:
+                    bad_ob = mm.group(1)
+        ob_failed.append("table obligation %s in Obligations.v no longer checks (the source no longer has the shape the proofs need)" % bad_ob)
+    ctx.log("theorems: %d/%d discharged, table obligations: %d/%d" % (
+        len(info["discharged"]), len(info["theorems"]), len(ob_ok), len(ob_names)))
 
     hb, hlog = ctx.build_harness("c08")
     meta = {}
@@ -159,6 +177,41 @@ def run(ctx):
         ctx.violation(key, case, True,
                       "%d observations of the implementation fail the C08 oracle this way; smallest input (%d bytes): %r%s"
                       % (len(lst), n, case_bytes(case)[:80], (" note=" + case.get("note")) if case.get("note") else ""))
+    # ---- header timeout probes (tested with tolerances, not proved)
+    e2e_meta = meta.get("e2e") or {}
+    to_ms = 400
+    for pr in e2e_meta.get("timeouts") or []:
+        name, bad = pr.get("probe"), None
+        if not pr.get("process_alive", True):
+            bad = "the proxy process died"
+        elif name in ("silent-peer", "half-header-then-silence"):
+            if not pr.get("closed_by_server") or pr.get("status") != 0:
+                bad = "the connection was not closed by the proxy (status %s)" % pr.get("status")
+            elif not (to_ms - 150 <= pr.get("closed_after_ms", -1) <= to_ms + 2500):
+                bad = "closed after %s ms, header timeout is %d ms" % (pr.get("closed_after_ms"), to_ms)
+            elif pr.get("other_connection_status") != 200:
+                bad = "another connection was not served meanwhile (status %s)" % pr.get("other_connection_status")
+        elif name == "header-completed-after-timeout":
+            if pr.get("status") != 0:
+                bad = "a header completed after the timeout was still served (status %s)" % pr.get("status")
+        elif name == "slow-header-within-timeout":
+            if pr.get("status") != 200:
+                bad = "a header completed within the timeout was not served (status %s)" % pr.get("status")
+        elif name == "stall-after-k-bytes":
+            if pr.get("not_closed") or pr.get("served"):
+                bad = "%s stalled connections were not closed, %s were served" % (pr.get("not_closed"), pr.get("served"))
+            elif not (to_ms - 150 <= pr.get("closed_after_ms_min", -1) and pr.get("closed_after_ms_max", 10**9) <= to_ms + 2500):
+                bad = "stalled connections closed after %s..%s ms, header timeout is %d ms" % (
+                    pr.get("closed_after_ms_min"), pr.get("closed_after_ms_max"), to_ms)
+            elif pr.get("other_connection_status") != 200:
+                bad = "another connection was not served while %s peers stalled" % pr.get("positions")
+            name = "stall-after-k-bytes-v%s" % pr.get("header_version")
+        elif name == "after-all":
+            if pr.get("status") != 200 or pr.get("xff") != "9.9.9.9":
+                bad = "after the timeout probes a well-formed connection got status %s xff %s" % (pr.get("status"), pr.get("xff"))
+        if bad:
+            ctx.violation("timeout-" + str(name), {"kind": "timeout", "probe": name, "observed": pr}, True, bad)
+
     if not prop_bad and model_bad:
         by_kind = collections.defaultdict(list)
         for kind, case in model_bad:
@@ -181,8 +234,9 @@ def run(ctx):
     nontriv = int(meta.get("reader_accepted", 0)) + int(meta.get("v2_sweep_accepted", 0)) + \
         int(meta.get("conn_cases_delivering_payload", 0)) + int(meta.get("token_ips_accepted", 0)) + int(e2e.get("served", 0))
     coverage = {
-        "obligations": len(info["theorems"]),
-        "discharged": len(info["discharged"]),
+        "obligations": len(info["theorems"]) + len(ob_names),
+        "discharged": len(info["discharged"]) + len(ob_ok),
+        "table_obligations": ob_names,
         "checker_cmd": "make -j16 (coq_makefile, full .vo) in coq/lib and coq/g08; coqc C08.v; coqc on %d cases shards (vm_compute)"
                        % sum(len(k["shards"]) for k in meta.get("kinds", [])),
         "trusted_base": common.standard_trusted_base([
